@@ -8,6 +8,7 @@ import (
 	"go/constant"
 	"go/token"
 	"go/types"
+	"os"
 	"sort"
 	"strings"
 
@@ -141,6 +142,7 @@ type Path struct {
 	Fuel      int
 	Origin    string // config key this continuation started from
 	AtJoin    bool   // just entered a join block: candidate for merging
+	Cut       bool   // exploration of this path was cut at a bound (unwind flag raised)
 }
 
 func (p *Path) fork(guard *Term) *Path {
@@ -181,14 +183,19 @@ type Engine struct {
 	pools    map[string]*Pool
 	init     []*Term // initial heap (globals etc.)
 
-	work       []*Path
-	done       []*Path
-	waiting    map[string][]*Path
-	Merges     int
-	NoMerge    bool
-	NoLiveness bool
-	Profile    map[string]int
-	ProfileN   map[string]int
+	work           []*Path
+	done           []*Path
+	waiting        map[string][]*Path
+	Merges         int
+	NoMerge        bool
+	NoLiveness     bool
+	DebugPaths     bool
+	MaxStack       int
+	StackCuts      int
+	pathsRun       int
+	MergeAfterCall bool
+	Profile        map[string]int
+	ProfileN       map[string]int
 
 	Intrinsics    map[string]Intrinsic
 	InvokeHook    func(e *Engine, p *Path, tag uint64, method string, recv Value, ic *ICall) bool
@@ -1000,6 +1007,25 @@ func (e *Engine) RunAll() []*Path {
 			p := e.work[len(e.work)-1]
 			e.work = e.work[:len(e.work)-1]
 			e.runPath(p)
+			e.pathsRun++
+			if e.DebugPaths && e.pathsRun%2000 == 0 {
+				nw := 0
+				for _, g := range e.waiting {
+					nw += len(g)
+				}
+				fmt.Fprintf(os.Stderr, "    paths run=%d work=%d waiting=%d groups=%d done=%d terms=%d merges=%d\n", e.pathsRun, len(e.work), nw, len(e.waiting), len(e.done), e.B.NumTerms(), e.Merges)
+				if os.Getenv("VERIF_DUMPKEYS") != "" && len(e.waiting) > 400 {
+					n := 0
+					for k := range e.waiting {
+						fmt.Fprintf(os.Stderr, "KEY %s\n\n", k)
+						n++
+						if n > 6 {
+							break
+						}
+					}
+					os.Exit(3)
+				}
+			}
 		}
 		if len(e.waiting) == 0 {
 			break
@@ -1367,6 +1393,7 @@ func (e *Engine) doReturn(p *Path, res Value) {
 			e.setReg(caller, v, res)
 		}
 		caller.PC++
+		caller.joined = e.MergeAfterCall
 	}
 }
 
@@ -2081,6 +2108,15 @@ func (e *Engine) dispatchCall(p *Path, cc *ssa.CallCommon, fnv Value, args []Val
 		}
 		if fn.Synthetic == "package initializer" && (fn.Pkg == nil || !e.InitPkgs[fn.Pkg.Pkg.Path()]) {
 			(&ICall{Site: site, Call: call}).Return(e, q, Value{})
+			return
+		}
+		if e.MaxStack > 0 && len(q.Cur.Frames) >= e.MaxStack {
+			// recursion bound: deeper calls raise the unwinding obligation and the path is cut
+			e.RaiseFlag(q, "unwind", e.B.True)
+			e.StackCuts++
+			q.Cur.Frames = nil
+			q.Cur.Pan = nil
+			q.Cut = true
 			return
 		}
 		nf := e.NewFrame(fn, a, bind)
